@@ -34,7 +34,7 @@ PREIMPORTS = ["", "json,hashlib", "cryptography.hazmat.backends", "cryptography.
 def gen_cfg(rng, scratch_ok=True):
     loc, utf8 = rng.choice(LOCALES)
     cfg = {"hashseed": str(rng.choice([0, 1, 2, 42, rng.randint(0, 4294967295)])), "lc_all": loc, "utf8": utf8,
-           "tz": rng.choice(TZS), "cwd": rng.choice(["scratch", "/", "repo"]), "opt": rng.random() < 0.2,
+           "tz": rng.choice(TZS), "cwd": rng.choice(["scratch", "/", "repo"]), "opt": rng.random() < 0.2, "werror": rng.random() < 0.25, "sslib": rng.random() < 0.25,
            "ioenc": rng.choice(["", "", "", "latin-1", "ascii", "utf-16"])}
     return cfg
 
@@ -49,6 +49,11 @@ def child_env(cfg, extra=None):
         env["TZ"] = cfg["tz"]
     if cfg.get("ioenc"):
         env["PYTHONIOENCODING"] = cfg["ioenc"]
+    if cfg.get("werror"):
+        env["PYTHONWARNINGS"] = "error"
+    if cfg.get("sslib"):
+        # a root key holder's environment: the optional dependency is importable (stand-in package)
+        env["PYTHONPATH"] = REPO + os.pathsep + os.path.join(HERE, "stubs")
     if extra:
         env.update(extra)
     return env
@@ -145,6 +150,30 @@ class CanonWorld(ProcBase):
                 return None
             seen[b] = v
             run.probe("value_serialized")
+        # a serialization that fails part-way must not leave anything behind for the next one
+        deep = cur = []
+        for _ in range(50000):
+            nxt = []
+            cur.append(nxt)
+            cur = nxt
+        circ = {"a": [1, 2]}
+        circ["a"].append(circ)
+        for bad in (circ, {"n": [1, 10 ** 5000]}, {"k": deep}, {"x": {1, 2}}, {1: "a", "b": 2}):
+            try:
+                cs(bad)
+            except Exception:  # noqa: BLE001
+                run.probe("failed_serialization_then_retry")
+            for v in ({"after": ["failure", 1.5, None]}, "x"):
+                try:
+                    b = cs(v)
+                except Exception as e:  # noqa: BLE001
+                    b = repr(e).encode()
+                if b != refcanon(v):
+                    run.violate(("C07",), "stale-state-after-failed-serialization",
+                                "after a serialization that failed, the next value serializes to %r instead of %r" % (b[:80], refcanon(v)[:80]),
+                                "stale-state-after-failed-serialization")
+                    return None
+        del deep, cur
         self.ref = h.hexdigest()
         return self.ref
 
@@ -241,6 +270,34 @@ class ConfigWorld(ProcBase):
             G["signatures"]["Ж"] = {"other_headers": "é", "signature": 5}
             calls.append({"fn": "verify_signable", "args": [G, [keys.pub[0], keys.pub[2]], 2], "kw": {"gpg": True}, "must": True})
             calls.append({"fn": "verify_signable", "args": [G, [keys.pub[0], keys.pub[2]], 2], "kw": {"gpg": False}, "must": False})
+        # negatives: every one of these must be rejected identically in every configuration
+        p = gen.gen_payload(rng, True)
+        G = lib.signing.wrap_as_signable(p)
+        pgp_sign(G, 0)
+        pgp_sign(G, 1)
+        bad = copy.deepcopy(G)
+        sg = bad["signatures"][keys.pub[1]]["signature"]
+        bad["signatures"][keys.pub[1]]["signature"] = sg[:-1] + ("0" if sg[-1] != "0" else "1")
+        calls.append({"fn": "verify_signable", "args": [bad, [keys.pub[0], keys.pub[1]], 2], "kw": {"gpg": True}, "must": False})
+        bad2 = copy.deepcopy(G)
+        bad2["signed"] = {"other": p}
+        calls.append({"fn": "verify_signable", "args": [bad2, [keys.pub[0], keys.pub[1]], 1], "kw": {"gpg": True}, "must": False})
+        bad3 = copy.deepcopy(G)
+        bad3["signatures"][keys.pub[2]] = copy.deepcopy(bad3["signatures"][keys.pub[0]])     # mis-filed
+        del bad3["signatures"][keys.pub[1]]
+        calls.append({"fn": "verify_signable", "args": [bad3, list(keys.pub), 2], "kw": {"gpg": True}, "must": False})
+        bad4 = copy.deepcopy(G)
+        bad4["signatures"][keys.pub[0].upper()] = copy.deepcopy(bad4["signatures"][keys.pub[0]])  # second spelling
+        del bad4["signatures"][keys.pub[1]]
+        calls.append({"fn": "verify_signable", "args": [bad4, [keys.pub[0], keys.pub[1]], 2], "kw": {"gpg": True}, "must": False})
+        R = raw_env(p, [0])
+        calls.append({"fn": "verify_signable", "args": [R, [keys.pub[0], keys.pub[1]], 2], "must": False})
+        calls.append({"fn": "verify_signable", "args": [R, [keys.pub[1]], 1], "must": False})
+        calls.append({"fn": "verify_signable", "args": [R, [keys.pub[0]], 0], "must": False})
+        calls.append({"fn": "verify_signable", "args": [R, [keys.pub[0].upper()], 1], "must": False})
+        calls.append({"fn": "verify_gpg_signature", "args": [G["signatures"][keys.pub[0]], keys.pub[1], "@bytes:" + refcanon(p).hex()], "must": False})
+        calls.append({"fn": "verify_gpg_signature", "args": [G["signatures"][keys.pub[0]], keys.pub[0], "@bytes:" + refcanon(p).hex()], "must": True})
+        calls.append({"fn": "verify_gpg_signature", "args": [bad["signatures"][keys.pub[1]], keys.pub[1], "@bytes:" + refcanon(p).hex()], "must": False})
         # a root rotation and a key_mgr delegation
         mc = lib.metadata_construction
         r1 = lib.signing.wrap_as_signable(mc.build_root_metadata(1, [keys.pub[0], keys.pub[1]], 2, [keys.pub[2]], 1,
@@ -251,6 +308,20 @@ class ConfigWorld(ProcBase):
         pgp_sign(r2, 1)
         calls.append({"fn": "verify_root", "args": [r1, r2], "must": True})
         calls.append({"fn": "verify_root", "args": [r2, r1], "must": False})
+        r2b = copy.deepcopy(r2)
+        r2b["signed"]["expiration"] = "2032-01-01T00:00:00Z"            # edited after signing
+        calls.append({"fn": "verify_root", "args": [r1, r2b], "must": False})
+        r2c = copy.deepcopy(r2)
+        del r2c["signatures"][keys.pub[0]]                                # one signer short of the old rule
+        calls.append({"fn": "verify_root", "args": [r1, r2c], "must": False})
+        r2d = copy.deepcopy(r2)
+        r2d["signatures"]["\udc80junk"] = {"x": "\u00e9"}
+        # (a malformed signature *value* makes the offered document malformed delegating metadata: verify_root must reject)
+        calls.append({"fn": "verify_root", "args": [r1, r2d], "must": False})
+        r2e = copy.deepcopy(r2)
+        r2e["signatures"]["\udc80not-a-key"] = {"signature": "00" * 64}     # well-formed value under a junk key: ignored
+        calls.append({"fn": "verify_root", "args": [r1, r2e], "must": True})
+        calls.append({"fn": "verify_delegation", "args": ["key_mgr", r2, r1], "kw": {"gpg": True}, "must": False})     # type mismatch
         km = lib.signing.wrap_as_signable(mc.build_delegating_metadata("key_mgr", {"pkg_mgr": {"pubkeys": [keys.pub[0]], "threshold": 1}}, 1,
                                                                         "2021-01-01T00:00:00Z", "2031-01-01T00:00:00Z"))
         lib.signing.sign_signable(km, keys.priv[2])
@@ -277,7 +348,8 @@ class ConfigWorld(ProcBase):
         # in-process reference verdicts
         ref = []
         for c in calls:
-            o = self.calls.call(c["fn"], *copy.deepcopy(c["args"]), **c.get("kw", {}))
+            args = [bytes.fromhex(a[7:]) if isinstance(a, str) and a.startswith("@bytes:") else a for a in copy.deepcopy(c["args"])]
+            o = self.calls.call(c["fn"], *args, **c.get("kw", {}))
             ref.append(o.cls)
             if c["must"] and not o.ok:
                 self.run.violate(("C02", "C12"), "must-accept-rejected",
@@ -316,6 +388,8 @@ class ConfigWorld(ProcBase):
         for c, a, b in zip(calls, ref, got):
             if a != b:
                 prop = ("C02", "C12") if c["must"] else ("C12", "C02")
+                if c.get("kw", {}).get("gpg") or c["fn"] in ("verify_root", "verify_gpg_signature"):
+                    prop = prop + ("C10", "C03")
                 self.run.violate(prop, "verdict-depends-on-configuration",
                                  "%s gave %s in-process but %s in a fresh interpreter with pre-imports %r, stdout %s, config %r"
                                  % (c["fn"], a, b, op.get("preimport"), r.get("stdout_encoding"), cfg), "verdict-depends-on-configuration:" + b)
@@ -343,6 +417,7 @@ class CliWorld(ChainWorld):
     def __init__(self, run, header):
         super().__init__(run, header)
         self.kms = []
+        self.km_kinds = []
         d = os.path.join(SCRATCH_ROOT, "cct-cli-%d-%d" % (os.getpid(), run.run_seed % 10**9))
         if os.path.exists(d):
             shutil.rmtree(d)
@@ -374,15 +449,27 @@ class CliWorld(ChainWorld):
 
     # ---------------------------------------------------------------- documents
     def op_mk_km(self, op):
+        doc = self._mk_km_doc(op)
+        if doc is None:
+            return self.run.ev("noop")
+        self.kms.append(doc)
+        self.km_kinds.append(op.get("kind", "honest"))
+
+    def _head_km_signers(self):
+        head = self.head["signed"]["delegations"].get("key_mgr", {}).get("pubkeys", [])
+        return [self.keys.pub.index(p) for p in head if p in self.keys.pub] or [0]
+
+    def _mk_km_doc(self, op):
         lib = self.lib
         pk = [self.keys.pub[i] for i in op["keys"] if i < len(self.keys)]
         o = self.calls.raw("build_delegating_metadata", "key_mgr", {"pkg_mgr": {"pubkeys": pk, "threshold": op.get("t", 1)}}, op.get("version", 1),
                            "2021-01-01T00:00:00Z", "2031-01-01T00:00:00Z")
         if not o.ok:
-            return self.run.ev("noop")
+            return None
         doc = self.calls.raw("wrap_as_signable", o.value).value
         self._apply_mods(doc, op.get("mods", []))
-        for i in op.get("signers", []):
+        signers = self._head_km_signers() if op.get("signers") == "head" else op.get("signers", [])
+        for i in signers:
             if i < len(self.keys) and isinstance(doc.get("signatures"), dict):
                 s = self.calls.raw("sign_signable", doc, self.keys.priv[i])
                 if s.ok:
@@ -391,7 +478,7 @@ class CliWorld(ChainWorld):
                     except (KeyError, TypeError):
                         pass
         self._apply_mods(doc, op.get("mods_after", []))
-        self.kms.append(doc)
+        return doc
 
     def _write(self, doc, fmt, special):
         self.nfile += 1
@@ -461,7 +548,8 @@ class CliWorld(ChainWorld):
         cwd = {"scratch": self.scratch, "/": "/", "repo": REPO}[cfg.get("cwd", "scratch")]
         p = subprocess.run(cmd, env=child_env(cfg), cwd=cwd, capture_output=True, timeout=120)
         out = p.stdout.decode("utf-8", "replace") if cfg.get("ioenc") != "utf-16" else p.stdout.decode("utf-16", "replace")
-        success_line = "verification successful" in out
+        success_line = "successful" in out.lower()
+        reported = bool(out.strip())
         self.run.probe("process_spawned")
         self.run.probe("entry_" + op["entry"])
         self.run.probe("cli_expected_accept" if accepted else "cli_expected_reject")
@@ -474,7 +562,7 @@ class CliWorld(ChainWorld):
         for k in (sp[0], sp[1]):
             if k:
                 self.run.fault("file_" + k)
-        if accepted and (p.returncode != 0 or not success_line):
+        if accepted and (p.returncode != 0 or not reported):
             self.run.violate(("C17",), "accepted-but-nonzero",
                              "library accepts (%s) but `%s verify-metadata` exited %d (success line: %s) under %r: %s"
                              % (why, op["entry"], p.returncode, success_line, cfg, p.stderr.decode("utf-8", "replace")[-300:]),
@@ -486,6 +574,56 @@ class CliWorld(ChainWorld):
         elif not accepted and success_line:
             self.run.violate(("C17",), "rejected-but-success-line", "library rejects (%s) but a success line was printed" % why,
                              "rejected-but-success-line:" + op["entry"])
+
+    def _oracle_docs(self, t, u):
+        try:
+            mtype = u["signed"]["type"]
+        except (KeyError, TypeError, IndexError):
+            return False
+        if mtype == "root":
+            return self.calls.call("verify_root", copy.deepcopy(t), copy.deepcopy(u)).ok
+        return self.calls.call("verify_delegation", mtype, copy.deepcopy(u), copy.deepcopy(t)).ok
+
+    def op_cli_toctou(self, op):
+        """The untrusted file is replaced (atomically, by another process) between two opens of the same name while
+        verify-metadata runs.  Whatever the tool then reports, status 0 is only right if the library accepts at least
+        one of the two versions - never a mixture (type taken from one version, signatures from the other)."""
+        if op.get("directed"):
+            # two versions whose declared types differ: one plain key_mgr document, one signed by the key_mgr key in force
+            # but declaring another type (and, optionally, not well-formed as delegating metadata)
+            T = self.head
+            A = self._mk_km_doc({"keys": [0], "signers": "head" if op["directed"].get("a_signed") else [], "version": 1,
+                                 "mods_after": [["expiration", "2038-01-01T00:00:00Z"]] if op["directed"].get("a_edited") else []})
+            B = self._mk_km_doc({"keys": [0], "signers": "head", "version": 1,
+                                 "mods": [["type", op["directed"]["b_type"]]] + ([["del", ["signed", op["directed"]["b_del"]]]] if op["directed"].get("b_del") else [])})
+            if op["directed"].get("swap"):
+                A, B = B, A
+        else:
+            T, A, B = self._base(op["t"]), self._base(op["a"]), self._base(op["b"])
+        if T is None or A is None or B is None:
+            return self.run.ev("noop")
+        try:
+            ta, tb, tt = refcanon(A), refcanon(B), refcanon(T)
+        except (TypeError, AssertionError):
+            return self.run.ev("noop")
+        self.fs.put("cli/trusted.json", tt)
+        self.fs.put("cli/untrusted.json", ta)
+        self.fs.opens_r.pop("cli/untrusted.json", None)
+        self.fs.swap["cli/untrusted.json"] = (op.get("at", 2), tb)
+        o = self.calls.cli_main(["verify-metadata", "cli/trusted.json", "cli/untrusted.json"])
+        self.fs.swap.pop("cli/untrusted.json", None)
+        reads = self.fs.opens_r.get("cli/untrusted.json", 0)
+        self.run.probe("cli_toctou_reads_%d" % min(reads, 3))
+        acc = self._oracle_docs(T, A) or self._oracle_docs(T, B)
+        if acc:
+            self.run.accepts += 1
+        else:
+            self.run.rejects += 1
+        if o.ok and o.value in (0, None) and not acc:
+            self.run.violate(("C17",), "accepted-mixture-of-two-file-versions",
+                             "verify-metadata returned status 0 although the library rejects the untrusted file both as it was at the first "
+                             "open and as it was after its replacement (%d opens of the untrusted file)" % reads,
+                             "accepted-mixture-of-two-file-versions")
 
     def op_cli_sign(self, op):
         from world_storage import dump_as
@@ -505,7 +643,16 @@ class CliWorld(ChainWorld):
                 f.write(text)
         cfg = op["cfg"]
         cmd = self._cmd(op["entry"], ["sign-artifacts", rpath, kpath], cfg)
-        p = subprocess.run(cmd, env=child_env(cfg), cwd=self.scratch, capture_output=True, timeout=120)
+        pre = None
+        if op.get("fsize"):
+            # the process may not grow any file beyond N bytes (RLIMIT_FSIZE: quota / full disk as the child sees it)
+            lim = int(op["fsize"])
+
+            def pre():
+                import resource
+                resource.setrlimit(resource.RLIMIT_FSIZE, (lim, lim))
+            self.run.fault("write_fails_file_size_limit")
+        p = subprocess.run(cmd, env=child_env(cfg), cwd=self.scratch, capture_output=True, timeout=120, preexec_fn=pre)
         self.run.probe("process_spawned")
         self.run.probe("entry_" + op["entry"])
         after = open(rpath, "rb").read()
@@ -533,10 +680,11 @@ class CliWorld(ChainWorld):
             self.run.violate(("C17",), "sign-exit-zero-without-signing",
                              "`%s sign-artifacts` exited 0 but the file is not signed (key file: %s): %s"
                              % (op["entry"], k, p.stdout.decode("utf-8", "replace")[:200]), "sign-exit-zero-without-signing:" + op["entry"])
-        elif p.returncode != 0 and good_input:
+        elif p.returncode != 0 and good_input and not op.get("fsize"):
             self.run.violate(("C17",), "sign-good-input-nonzero", "`%s sign-artifacts` exited %d on valid input: %s"
                              % (op["entry"], p.returncode, p.stderr.decode("utf-8", "replace")[-300:]), "sign-good-input-nonzero:" + op["entry"])
-        elif p.returncode != 0 and after != before:
+        elif p.returncode != 0 and after != before and not op.get("fsize"):
+            # (with a file-size limit the failure strikes during the output phase: a torn file is outside the properties' wording)
             self.run.violate(("C17", "C18"), "sign-nonzero-but-file-changed", "sign-artifacts exited %d but changed the file" % p.returncode,
                              "sign-nonzero-but-file-changed")
 
@@ -642,25 +790,45 @@ class CliWorld(ChainWorld):
                 s = rng.choice(["missing", "dir", "empty", "notjson", "bom", "binary"])
                 op["special"] = [s, None] if rng.random() < 0.4 else [None, s]
             return op
-        if r < 0.55:
+        if r < 0.52:
+            return {"op": "cli_toctou", "at": rng.choice([2, 2, 3, 1]),
+                    "directed": {"a_signed": rng.random() < 0.5, "a_edited": rng.random() < 0.7, "b_type": rng.choice(["root", "root", "pkg_mgr", "key_mgr"]),
+                                 "b_del": rng.choice([None, "expiration", "metadata_spec_version", "delegations", "timestamp"]), "swap": rng.random() < 0.3}}
+        if r < 0.54 and self.kms:
+            ts = [["chain", len(self.honest_chain) - 1], ["chain", 0]]
+            us = [["km", i] for i in range(len(self.kms))] + [["crafted", i] for i in range(len(self.crafted))] + \
+                 [["chain", i] for i in range(len(self.honest_chain))]
+            a, b = rng.choice(us), rng.choice(us)
+            odd = [i for i, k in enumerate(self.km_kinds) if k == "malformed_other_type"]
+            plain = [i for i, k in enumerate(self.km_kinds) if k != "malformed_other_type"]
+            if odd and plain and rng.random() < 0.6:
+                a, b = ["km", rng.choice(plain)], ["km", rng.choice(odd)]     # declared types differ between the two versions
+                if rng.random() < 0.3:
+                    a, b = b, a
+            return {"op": "cli_toctou", "t": rng.choice(ts), "a": a, "b": b, "at": rng.choice([2, 2, 3])}
+        if r < 0.62:
             from world_storage import gen_repodata
             doc = gen_repodata(rng, True, 3) if rng.random() < 0.8 else rng.choice([[], {"info": {}}, {"packages": []}])
             op = {"op": "cli_sign", "doc": doc, "entry": rng.choice(ENTRIES), "cfg": cfg, "fmt": rng.choice(["canon", "compact", "crlf"]),
                   "key": rng.choice(["good", "good", "upper", "spaces", "short", "nonhex", "empty", "missing", "two"])}
             if rng.random() < 0.1:
                 op["raw"] = rng.choice(["", "{", "not json"])
+            if rng.random() < 0.2:
+                op["fsize"] = rng.choice([0, 64, 512, 2048])
             return op
-        if r < 0.68:
+        if r < 0.74:
             head = self.head["signed"]["delegations"].get("key_mgr", {}).get("pubkeys", [])
             idx = [self.keys.pub.index(p) for p in head if p in self.keys.pub] or [0]
-            kind = rng.choice(["honest", "honest", "unsigned", "wrong_signer", "type_root", "edited", "junk"])
-            op = {"op": "mk_km", "keys": [rng.randrange(nk)], "t": 1, "signers": idx, "version": rng.choice([1, 2])}
+            kind = rng.choice(["honest", "honest", "unsigned", "wrong_signer", "type_root", "edited", "junk", "malformed_other_type"])
+            op = {"op": "mk_km", "keys": [rng.randrange(nk)], "t": 1, "signers": idx, "version": rng.choice([1, 2]), "kind": kind}
             if kind == "unsigned":
                 op["signers"] = []
             elif kind == "wrong_signer":
                 op["signers"] = [rng.choice([i for i in range(nk) if i not in idx] or [0])]
             elif kind == "type_root":
                 op["mods"] = [["type", rng.choice(["root", "pkg_mgr", "Key_mgr"])]]
+            elif kind == "malformed_other_type":
+                op["mods"] = [["type", rng.choice(["root", "pkg_mgr"])], ["del", ["signed", rng.choice(["expiration", "metadata_spec_version", "delegations"])]]]
             elif kind == "edited":
                 op["mods_after"] = [["expiration", "2039-01-01T00:00:00Z"]]
             elif kind == "junk":
